@@ -132,6 +132,12 @@ pub fn long_cases(with_lookahead: bool) -> Vec<(String, Cfg, String)> {
         v.push(("multi-byte run longer than 65 536 bytes, then a token".into(), c1.clone(), format!("{}x ab", "é".repeat(40_000))));
         v.push(("300 unmatched characters between tokens".into(), c1.clone(), format!("a{}b{}aa", "#".repeat(300), "€".repeat(300))));
         v.push(("tokens of length 255, 256, 257".into(), c1, format!("{} {} {}", "a".repeat(255), "a".repeat(256), "a".repeat(257))));
+        // every scalar value exactly once, in ascending order: every character has to end up in
+        // exactly one token of the right type
+        let all = bridge::all_scalars_string().to_string();
+        v.push(("every scalar value once: ASCII letters / other ASCII / everything else".into(), Cfg::single(vec![CPat::new("[a-zA-Z]+", 0), CPat::new("[\\x00-\\x7f]", 1), CPat::new("[^\\x00-\\x7f]", 2)]), all.clone()));
+        v.push(("every scalar value once: dot / line feed".into(), Cfg::single(vec![CPat::new(".", 0), CPat::new("\\n", 1)]), all.clone()));
+        v.push(("every scalar value once: literals \\x7f, \\x80, \\u{ffff}, \\u{10000} between [^a]".into(), Cfg::single(vec![CPat::new("\\x7f", 0), CPat::new("\\x{80}", 1), CPat::new("\\x{ffff}", 2), CPat::new("\\x{10000}", 3), CPat::new("\\x{10ffff}", 4), CPat::new("\\x00", 5), CPat::new("[^a]", 6)]), all));
         let c2 = Cfg {
             modes: vec![
                 bridge::CMode { name: "A".into(), pats: vec![CPat::new("[a-z]+", 0), CPat::new("\"", 1), CPat::new("\\s+", 2)], transitions: vec![(1, 1)] },
